@@ -248,6 +248,14 @@ func runDisp(rec *Rec, sc *DispScenario, n int) {
 		sdisc = true
 	default:
 	}
+	// hooks that run after the caller has its answer (post-write stages on the server) are complete once a
+	// graceful close of both peers has returned: it waits for every running handler context
+	cd := make(chan struct{})
+	go func() { cli.Close(); srv.Close(); close(cd) }()
+	select {
+	case <-cd:
+	case <-time.After(2 * time.Second):
+	}
 	rec.Emit("Quiesce", "ncall", ncall, "npush", npush, "nreply", nreply, "nother", nother, "srvdisc", sdisc,
 		"enters", atomic.LoadInt64(&app.Enters)-before)
 }
